@@ -227,7 +227,7 @@ fn check_steps<T: Elem>(obs: &[StepObs], removed: &mut VecDeque<Mv>, pat: Pat, s
             (Some(seen), Some(w)) => {
                 if T::SIZE != 0 {
                     if matches!(sink, Sink::Downcast | Sink::DowncastRef | Sink::SwapW | Sink::SwapRaw) {
-                        match seen { Some(id) if mv_match(w, *id) => {}, _ => out.fail(Class::Vec, "wrong-item", format!("step {i} ({}): yielded {seen:?}, model {w:?}", if pat.back(i) { "next_back" } else { "next" })) }
+                        match seen { Some(id) if mv_match(w, *id) => {}, _ => out.fail(Class::Iter, "wrong-item", format!("step {i} ({}): yielded {seen:?}, model {w:?}", if pat.back(i) { "next_back" } else { "next" })) }
                     }
                 }
                 match sink {
